@@ -310,7 +310,11 @@ func runSignWith[G algebra.PrimeGroupElement[G, S], S algebra.PrimeFieldElement[
 	if len(wires) > 0 {
 		sample["signature_hex"] = fmt.Sprintf("%x", wires[0])
 	}
-	return harness.Outcome{Violation: viol, Class: class, NonTrivial: pr.nontrivial(), Trace: pr.cl.Trace, Stats: pr.cl.Stats, Probes: probes, Sample: sample}
+	dig := ""
+	for _, wv := range wires {
+		dig += fmt.Sprintf("%x|", wv)
+	}
+	return harness.Outcome{Violation: viol, Class: class, NonTrivial: pr.nontrivial(), Trace: pr.cl.Trace, Stats: pr.cl.Stats, Probes: probes, Sample: sample, Digest: dig}
 }
 
 func runSignFlavor(rc *harness.RunCtx, name string) (out harness.Outcome) {
